@@ -34,6 +34,7 @@ use serde::{Deserialize, Serialize};
 use serde_json::Value;
 use serde_json::value::RawValue;
 use std::collections::BTreeMap;
+use futures_util::FutureExt;
 use std::future::Future;
 use std::io::{BufRead, Write};
 use std::option;
@@ -206,6 +207,25 @@ pub trait Spell {
 	async fn sub_spell(&self, a: u32, b: core::option::Option<String>, c: ::core::option::Option<u64>) -> SubscriptionResult;
 	#[subscription(name = "subscribeSpellMap", item = u64, param_kind = map)]
 	async fn sub_spell_map(&self, n: u32, k: std::option::Option<u32>) -> SubscriptionResult;
+}
+#[rpc(client, server, namespace = "ren")]
+pub trait Ren {
+	#[method(name = "mapBackslash", param_kind = map)]
+	fn map_backslash(&self, #[argument(rename = "dir\\name")] dir: String, plain: u32) -> RpcResult<(u32, String)>;
+	#[method(name = "mapQuote", param_kind = map)]
+	async fn map_quote(&self, #[argument(rename = "say \"hi\"")] quoted: u16, plain: bool) -> RpcResult<(bool, u16)>;
+	#[method(name = "mapUnicode", param_kind = map, blocking)]
+	fn map_unicode(&self, #[argument(rename = "größe in µm")] size: u64, plain: Option<String>) -> RpcResult<(u64, Option<String>)>;
+	#[method(name = "mapTab", param_kind = map)]
+	fn map_tab(&self, plain: i16, #[argument(rename = "col\tumn")] column: Option<u8>) -> RpcResult<(i16, Option<u8>)>;
+	#[method(name = "mapSpace", param_kind = map)]
+	async fn map_space(&self, #[argument(rename = " ")] blank: String, plain: u8) -> RpcResult<(u8, String)>;
+	#[method(name = "mapAll", param_kind = map, blocking)]
+	fn map_all(&self, #[argument(rename = "dir\\name")] dir: String, #[argument(rename = "say \"hi\"")] quoted: u16, #[argument(rename = "gr\u{f6}\u{df}e in \u{b5}m")] size: u64, #[argument(rename = "col\tumn")] column: Option<u8>, #[argument(rename = " ")] blank: bool, plain: Option<String>) -> RpcResult<(Option<String>, bool, Option<u8>, u64, u16, String)>;
+	#[method(name = "mapQuoteOnly", param_kind = map)]
+	async fn map_quote_only(&self, #[argument(rename = "\"")] q: u32, plain: Option<u32>) -> RpcResult<(u32, Option<u32>)>;
+	#[subscription(name = "subscribeRen", item = (u32, String), param_kind = map)]
+	async fn sub_ren(&self, #[argument(rename = "dir\\name")] dir: String, #[argument(rename = "a\"b")] quoted: u32, plain: Option<u64>) -> SubscriptionResult;
 }
 // FAMILY-END
 
@@ -527,6 +547,44 @@ impl SpellServer for Impl {
 	}
 }
 
+#[async_trait]
+impl RenServer for Impl {
+	fn map_backslash(&self, dir: String, plain: u32) -> RpcResult<(u32, String)> {
+		self.0.rec("7.m0", &(&dir, plain))?;
+		Ok((plain, dir))
+	}
+	async fn map_quote(&self, quoted: u16, plain: bool) -> RpcResult<(bool, u16)> {
+		self.0.rec("7.m1", &(quoted, plain))?;
+		Ok((plain, quoted))
+	}
+	fn map_unicode(&self, size: u64, plain: Option<String>) -> RpcResult<(u64, Option<String>)> {
+		self.0.rec("7.m2", &(size, &plain))?;
+		Ok((size, plain))
+	}
+	fn map_tab(&self, plain: i16, column: Option<u8>) -> RpcResult<(i16, Option<u8>)> {
+		self.0.rec("7.m3", &(plain, column))?;
+		Ok((plain, column))
+	}
+	async fn map_space(&self, blank: String, plain: u8) -> RpcResult<(u8, String)> {
+		self.0.rec("7.m4", &(&blank, plain))?;
+		Ok((plain, blank))
+	}
+	fn map_all(&self, dir: String, quoted: u16, size: u64, column: Option<u8>, blank: bool, plain: Option<String>) -> RpcResult<(Option<String>, bool, Option<u8>, u64, u16, String)> {
+		self.0.rec("7.m5", &(&dir, quoted, size, column, blank, &plain))?;
+		Ok((plain, blank, column, size, quoted, dir))
+	}
+	async fn map_quote_only(&self, q: u32, plain: Option<u32>) -> RpcResult<(u32, Option<u32>)> {
+		self.0.rec("7.m6", &(q, plain))?;
+		Ok((q, plain))
+	}
+	async fn sub_ren(&self, pending: PendingSubscriptionSink, dir: String, quoted: u32, plain: Option<u64>) -> SubscriptionResult {
+		let args = serde_json::to_vec(&(&dir, quoted, plain)).unwrap();
+		let items: Vec<(u32, String)> = (0..(1 + quoted % 3)).map(|i| (quoted.wrapping_add(i), format!("{}{}", dir, i))).collect();
+		serve_sub(self.0.clone(), "7.s0", args, pending, items).await;
+		Ok(())
+	}
+}
+
 // ------------------------------------------------------------------ in-process transport
 
 #[derive(Debug)]
@@ -619,6 +677,30 @@ fn mk_api(methods: Methods, sh: &Arc<Shared>) -> Api {
 }
 
 // ------------------------------------------------------------------ running one case
+
+/// messages of the panics seen since the last case (any thread): the hook keeps them off stderr (vlib reads stderr and
+/// stdout as one stream) and run_case reports them in the case's own line
+static PANICS: Mutex<Vec<String>> = Mutex::new(Vec::new());
+
+fn install_panic_hook() {
+	std::panic::set_hook(Box::new(|info| {
+		let msg = match info.payload().downcast_ref::<&str>() {
+			Some(s) => s.to_string(),
+			None => match info.payload().downcast_ref::<String>() {
+				Some(s) => s.clone(),
+				None => "(non-string payload)".to_string(),
+			},
+		};
+		let at = info.location().map(|l| format!("{}:{}", l.file(), l.line())).unwrap_or_default();
+		if let Ok(mut p) = PANICS.lock() {
+			p.push(format!("{} @ {}", msg, at));
+		}
+	}));
+}
+
+fn take_panics() -> Vec<String> {
+	PANICS.lock().map(|mut p| std::mem::take(&mut *p)).unwrap_or_default()
+}
 
 fn client_err(e: Error) -> String {
 	match e {
@@ -828,6 +910,17 @@ async fn run_stub(apis: &[Api], sh: &Arc<Shared>, api: usize, m: &str, args: &[u
 			let (a, b): (u32, Option<u32>) = serde_json::from_slice(args).expect("typed args of the case");
 			drain::<u64>(sh, c.sub_spell_map(a, b).await).await
 		}
+		(7, "m0") => stub!(args; c, map_backslash; a: String, b: u32),
+		(7, "m1") => stub!(args; c, map_quote; a: u16, b: bool),
+		(7, "m2") => stub!(args; c, map_unicode; a: u64, b: Option<String>),
+		(7, "m3") => stub!(args; c, map_tab; a: i16, b: Option<u8>),
+		(7, "m4") => stub!(args; c, map_space; a: String, b: u8),
+		(7, "m5") => stub!(args; c, map_all; a: String, b: u16, cc: u64, d: Option<u8>, e: bool, f: Option<String>),
+		(7, "m6") => stub!(args; c, map_quote_only; a: u32, b: Option<u32>),
+		(7, "s0") => {
+			let (a, b, cc): (String, u32, Option<u64>) = serde_json::from_slice(args).expect("typed args of the case");
+			drain::<(u32, String)>(sh, c.sub_ren(a, b, cc).await).await
+		}
 		_ => "c:fail:".to_string() + &hex(b"no such stub"),
 	}
 }
@@ -925,7 +1018,11 @@ async fn run_case(apis: &[Api], sh: &Arc<Shared>, line: &str) -> String {
 	let (w, c) = match t[0] {
 		"stub" => {
 			let args = unhex(t[3]);
-			let c = run_stub(apis, sh, api, t[2], &args).await;
+			// a generated stub that panics (e.g. params that are not JSON) is a result of the case, not the end of the engine
+			let c = match std::panic::AssertUnwindSafe(run_stub(apis, sh, api, t[2], &args)).catch_unwind().await {
+				Ok(c) => c,
+				Err(_) => format!("c:fail:{}", hex(format!("PANIC in the client stub: {}", take_panics().join(" | ")).as_bytes())),
+			};
 			let w = match sh.wire.lock().unwrap().first() {
 				Some((m, p, _)) => format!("w:{}:{}", hex(m.as_bytes()), opt_hex_plain(p.as_ref().map(|p| p.as_bytes()))),
 				None => "w:-:-".to_string(),
@@ -936,11 +1033,17 @@ async fn run_case(apis: &[Api], sh: &Arc<Shared>, line: &str) -> String {
 			let method = String::from_utf8(unhex(t[2])).expect("utf8 method");
 			let params = if t[3] == "-" { None } else { Some(String::from_utf8(unhex(t[3])).expect("utf8 params")) };
 			let unsub = t.get(5).filter(|u| **u != "-").map(|u| String::from_utf8(unhex(u)).expect("utf8 unsub"));
-			let c = run_raw(apis, sh, api, &method, params.as_deref(), unsub.as_deref()).await;
+			let c = match std::panic::AssertUnwindSafe(run_raw(apis, sh, api, &method, params.as_deref(), unsub.as_deref())).catch_unwind().await {
+				Ok(c) => c,
+				Err(_) => format!("c:fail:{}", hex(format!("PANIC in the raw call: {}", take_panics().join(" | ")).as_bytes())),
+			};
 			("w:-:-".to_string(), c)
 		}
 		_ => return "?unknown-mode".to_string(),
 	};
+	// a panic elsewhere (a handler task, the client's background task) that nothing above caught
+	let stray = take_panics();
+	let c = if stray.is_empty() { c } else { format!("c:fail:{}", hex(format!("PANIC in a background task: {} (client side was {})", stray.join(" | "), c).as_bytes())) };
 	let log = sh.log.lock().unwrap();
 	let (h, a) = if log.is_empty() {
 		("-".to_string(), "-".to_string())
@@ -951,6 +1054,7 @@ async fn run_case(apis: &[Api], sh: &Arc<Shared>, line: &str) -> String {
 }
 
 fn main() {
+	install_panic_hook();
 	let rt = tokio::runtime::Builder::new_multi_thread().worker_threads(2).enable_all().build().expect("runtime");
 	rt.block_on(async {
 		let sh = Arc::new(Shared::default());
@@ -962,6 +1066,7 @@ fn main() {
 			mk_api(NegServer::into_rpc(Impl(sh.clone())).into(), &sh),
 			mk_api(RawServer::into_rpc(Impl(sh.clone())).into(), &sh),
 			mk_api(SpellServer::into_rpc(Impl(sh.clone())).into(), &sh),
+			mk_api(RenServer::into_rpc(Impl(sh.clone())).into(), &sh),
 		];
 		let stdin = std::io::stdin();
 		let stdout = std::io::stdout();
